@@ -74,12 +74,25 @@ def rspec(rng, depth=0):
         lo = rbound_array(rng, sh, dt)
         hi = rbound_array(rng, sh, dt, lo=lo)
         return specs.BoundedArray(sh, dt, lo, hi, rname(rng))
+    def edge_count(dt):
+        """a number of values at / next to the top of the dtype's range (num_values - 1 = iinfo.max is still representable)"""
+        top = int(np.iinfo(np.dtype(dt)).max) if np.dtype(dt).itemsize < 4 else 2 ** 20
+        return [top + 1, top, top - 1][int(rng.integers(0, 3))]
     if kind == 2:
-        return specs.DiscreteArray(int(rng.integers(1, 7)), INT_DTS[int(rng.integers(0, 4))] if rng.random() < 0.5 else jnp.int32, rname(rng))
+        dt = INT_DTS[int(rng.integers(0, 4))] if rng.random() < 0.5 else "int32"
+        nv = edge_count(dt) if rng.random() < 0.25 else int(rng.integers(1, 7))
+        return specs.DiscreteArray(nv, dt, rname(rng))
     sh = rshape(rng)
     while 0 in sh:
         sh = rshape(rng)
-    return specs.MultiDiscreteArray(jnp.asarray(rng.integers(1, 5, size=sh), jnp.int32), INT_DTS[int(rng.integers(0, 4))] if rng.random() < 0.5 else jnp.int32, rname(rng))
+    dt = INT_DTS[int(rng.integers(0, 4))] if rng.random() < 0.5 else "int32"
+    nvs = np.asarray(rng.integers(1, 5, size=sh), np.int64)
+    if rng.random() < 0.3:      # some components exactly fill (or nearly fill) the dtype's range
+        flat = nvs.reshape(-1)
+        for i in rng.permutation(len(flat))[:max(1, len(flat) // 2)]:
+            flat[int(i)] = edge_count(dt)
+        nvs = flat.reshape(sh)
+    return specs.MultiDiscreteArray(jnp.asarray(nvs, jnp.int32), dt, rname(rng))
 
 
 def leaf_bounds(sp):
